@@ -17,6 +17,7 @@ from photon_weave.photon_weave import Config
 
 from .base_state import BaseState
 from .expansion_levels import ExpansionLevel
+from photon_weave._verif import announce as _verif_announce
 
 if TYPE_CHECKING:
     from photon_weave.operation import Operation
@@ -306,6 +307,7 @@ class Polarization(BaseState):
             prob_1 = jnp.abs(self.state[1]) ** 2
             assert jnp.isclose(prob_0 + prob_1, 1.0)
             probs = jnp.array([prob_0[0], prob_1[0]])
+            _verif_announce("measure", self)
             key = C.random_key
             outcome = jax.random.choice(key, a=jnp.array([0, 1]), p=probs.ravel())
             results[self] = int(outcome)
@@ -315,6 +317,7 @@ class Polarization(BaseState):
             probabilities = jnp.diag(self.state).real
             probabilities = probabilities / jnp.sum(probabilities)
             # Generate a random key
+            _verif_announce("measure", self)
             key = C.random_key
             outcome = jax.random.choice(
                 key, a=jnp.arange(self.state.shape[0]), p=probabilities
